@@ -28,7 +28,7 @@ RUNS = {"quick": 2400, "thorough": 60000}
 BUDGET = {"quick": 75, "thorough": 1500}
 CHUNK = {"quick": 20, "thorough": 100}
 MOVES = ["add_emitter_one_qubit_op", "add_emitter_cnot", "replace_photon_one_qubit_op", "add_photon_one_qubit_op",
-         "remove_op", "remove_op_node", "add_measurement_cnot_and_reset", "select", "rejected_replace"]
+         "remove_op", "remove_op_node", "add_measurement_cnot_and_reset", "select", "rejected_replace", "peek"]
 RULE = (
     "initial circuit from EvolutionarySolver.initialization (seam-chosen emission/measurement assignment, 1-3 emitters, "
     "1-5 photons), from TimeReversedSolver on a seeded target (n<=6), or an entry of an AlternateTargetSolver result; "
@@ -70,6 +70,7 @@ def gen_case(run_seed, tier):
     if sum(w.values()) == 0:
         w["add_emitter_one_qubit_op"] = 1.0
     w["select"] = 0.35 if w["select"] else 0.0  # tournament selection between moves (population of copies)
+    w["peek"] = 0.4 if sz.random() < 0.4 else 0.0  # a read-only look at the insertion positions, nothing inserted
     w["rejected_replace"] = 0.3 if sz.random() < 0.4 else 0.0  # fault: an impossible replace_op is refused, the moves go on
     if src == "trs":
         case["trs_solves"] = sz.choice([1, 1, 2, 3])  # the deterministic solver object used again: every result is judged
@@ -298,6 +299,17 @@ def run_case(case):
             try:
                 if mv == "rejected_replace":
                     pass  # the refused call above was the whole step; the invariants below judge what it left behind
+                elif mv == "peek":
+                    # the caller (or a solver that then decides not to insert) only looks: which edges are incompatible
+                    # with a given one, which CNOT / measurement positions exist
+                    es = sorted(circ.dag.edges(keys=True), key=str)
+                    if es:
+                        circ.find_incompatible_edges(es[arg % len(es)])
+                    if arg % 3 == 0:
+                        solver._select_possible_cnot_position(circ)
+                    elif arg % 3 == 1:
+                        solver._select_possible_measurement_position(circ)
+                    ctx.probe("positions_looked_at_without_insertion")
                 elif mv == "remove_op_node":
                     nodes = sorted(n for n in circ.dag.nodes if isinstance(n, int))
                     if not nodes:
